@@ -922,6 +922,9 @@ func (t *Tokenizer) readQuotedIdentifier() (models.Token, error) {
 	// Get and normalize opening quote
 	r, size := utf8.DecodeRune(t.input[t.pos.Index:])
 	quote := normalizeQuote(r)
+	// After a plain ASCII opener typographic quotes are ordinary content; only a
+	// typographic opener is closed by (any) typographic quote of its kind.
+	plainOpener := r == quote
 	startPos := t.pos.Clone()
 
 	// Skip opening quote
@@ -930,13 +933,17 @@ func (t *Tokenizer) readQuotedIdentifier() (models.Token, error) {
 	var buf bytes.Buffer
 	for t.pos.Index < len(t.input) {
 		r, size := utf8.DecodeRune(t.input[t.pos.Index:])
-		r = normalizeQuote(r)
+		if !plainOpener {
+			r = normalizeQuote(r)
+		}
 
 		if r == quote {
 			// Check for escaped quote
 			if t.pos.Index+size < len(t.input) {
 				nextR, nextSize := utf8.DecodeRune(t.input[t.pos.Index+size:])
-				nextR = normalizeQuote(nextR)
+				if !plainOpener {
+					nextR = normalizeQuote(nextR)
+				}
 				if nextR == quote {
 					// Include one quote and skip the other
 					buf.WriteRune(r)
@@ -1051,6 +1058,9 @@ func (t *Tokenizer) readQuotedString(quote rune) (models.Token, error) {
 	r, size := utf8.DecodeRune(t.input[t.pos.Index:])
 	originalQuote := r
 	quote = normalizeQuote(r)
+	// After a plain ASCII opener typographic quotes are ordinary content; only a
+	// typographic opener is closed by (any) typographic quote of its kind.
+	plainOpener := originalQuote == quote
 
 	// Skip opening quote
 	t.pos.AdvanceRune(r, size)
@@ -1058,13 +1068,17 @@ func (t *Tokenizer) readQuotedString(quote rune) (models.Token, error) {
 	var buf bytes.Buffer
 	for t.pos.Index < len(t.input) {
 		r, size := utf8.DecodeRune(t.input[t.pos.Index:])
-		r = normalizeQuote(r)
+		if !plainOpener {
+			r = normalizeQuote(r)
+		}
 
 		if r == quote {
 			// Check for escaped quote
 			if t.pos.Index+size < len(t.input) {
 				nextR, nextSize := utf8.DecodeRune(t.input[t.pos.Index+size:])
-				nextR = normalizeQuote(nextR)
+				if !plainOpener {
+					nextR = normalizeQuote(nextR)
+				}
 				if nextR == quote {
 					// Include one quote and skip the other
 					buf.WriteRune(r)
